@@ -29,8 +29,8 @@ subprocess.run(["git", "-C", "/repo", "worktree", "remove", "--force", WT], capt
 for r in rows:
     print("%-22s %-4s %-10s %s" % r)
 # prune build artefacts of scratch trees (each scratch path gets its own incremental/engeom build in the shared target dir)
-subprocess.run("cd %s/.cache/replay-target/debug 2>/dev/null && find incremental -maxdepth 1 -mindepth 1 -mmin +150 ! -name '*main*' -exec rm -rf {} + ; "
-               "find deps -maxdepth 1 -name '*vreplay_*' ! -name '*vreplay_main*' -mmin +150 -delete ; find . -maxdepth 1 -name 'vreplay_*' ! -name 'vreplay_main*' -mmin +150 -delete ; "
-               "find %s/.cache -maxdepth 1 -name 'replay-[0-9a-f]*' -mmin +150 -exec rm -rf {} +" % (V, V), shell=True, capture_output=True)
+subprocess.run("cd %s/.cache/replay-target/debug 2>/dev/null && find incremental -maxdepth 1 -mindepth 1 -mmin +60 ! -name '*main*' -exec rm -rf {} + ; "
+               "find deps -maxdepth 1 -name '*vreplay_*' ! -name '*vreplay_main*' -mmin +60 -delete ; find . -maxdepth 1 -name 'vreplay_*' ! -name 'vreplay_main*' -mmin +60 -delete ; "
+               "find %s/.cache -maxdepth 1 -name 'replay-[0-9a-f]*' -mmin +60 -exec rm -rf {} +" % (V, V), shell=True, capture_output=True)
 
 subprocess.run("find %s/.cache -maxdepth 1 -name 'kani-target-*' -mmin +30 -exec rm -rf {} +" % V, shell=True, capture_output=True)
